@@ -37,8 +37,11 @@ Check ==
              tol == FMul(FMul(FInt(16 * n), Eps), FAdd(scale, FStr("1e-300")))
          IN Fails(Len(R.out) = n /\ \A i \in 1..n : Close(R.out[i], StepErr(R.v, i, R.pow), tol), "StepErr")
     [] R.kind = "levels" ->
-         LET lv == StepLevels(R.v, R.ind)  sc == FMaxAbs(R.v)
-         IN Fails(NearS(R.pre, lv[1], sc) /\ NearS(R.post, lv[2], sc), "StepLevels")
+         \* the split sample may be the first / last one: that side is empty and only the other level is stated
+         LET n == Len(R.v)  sc == FMaxAbs(R.v)
+             preOK == R.ind = 0 \/ NearS(R.pre, FMean(SubSeq(R.v, 1, R.ind)), sc)
+             postOK == R.ind = n - 1 \/ NearS(R.post, FMean(SubSeq(R.v, R.ind + 2, n)), sc)
+         IN Fails(preOK /\ postOK, "StepLevels")
     [] R.kind = "sd_ch" ->
          Fails(CloseRel(R.sd, FMul(FMul(R.ch, FSq(R.T)), R.znr), Tol, FAbs(R.sd), FStr("1e-300")), "SdEqualsChT2")
     [] R.kind = "cont" ->
